@@ -563,9 +563,9 @@ def write_evidence(prop, tier, seed, pairs, wall, nviol=0, undecided=None, known
         for f in r['functions']: funcs[f['c']] = f
     samples = []
     for o, r in pairs:
-        for x in r['results']:
-            if 'postcondition' in x[0] or 'assertion' in x[0] or 'loop_invariant' in x[0]:
-                samples.append('%s:%s %s' % (o.id, x[0], x[1][:90])); break
+        pick = [x for x in r['results'] if x[0].startswith('harness.assertion') or 'postcondition' in x[0] or 'loop_invariant' in x[0] or x[0].startswith('astscan')]
+        pick = pick or [x for x in r['results'] if 'assertion' in x[0] and not x[0].startswith('malloc')]
+        if pick: samples.append('%s:%s %s' % (o.id, pick[0][0], pick[0][1][:140]))
     cov = dict(obligations=obligations, discharged=discharged,
                checker_cmd='goto-cc --function <harness>; goto-instrument --dfcc <harness> --enforce-contract F [--replace-call-with-contract G] --apply-loop-contracts; cbmc ' + ' '.join(CBMC_FLAGS) + ' [--unwind N --unwinding-assertions for tier B]',
                trusted_base=trusted_base(),
